@@ -347,6 +347,10 @@ def oracle(line):
             return str(mimc_hash(ch, None))
         if op == 'keccak':
             return 'x' + keccak256(b''.join(x or b'' for x in a)).hex()
+        if op == 'keccakarena':
+            ar, pl = a[0], a[1]
+            parts = [ar[pl[i]:pl[i] + pl[i + 1]] for i in range(0, len(pl) - 1, 2)]
+            return 'x' + keccak256(b''.join(parts)).hex() + ' x' + ar.hex()
         if op == 'infield':
             return 'true' if 0 <= a[0] < Q else 'false'
         if op == 'lebytes':
